@@ -545,6 +545,18 @@ def script(ct):
     rec(lambda: h.x)
     rec(lambda: h.parent.value)
     trace.append(("notifications-total", len(calls)))
+    # the definition as the introspection and copy machinery sees it
+    rec(lambda: h.base_trait("x") is not None)
+    rec(lambda: h.validate_trait("x", 1))
+    rec(lambda: h.validate_trait("x", "sa"))
+    rec(lambda: h.trait("x").is_trait_type(type(ct.handler))
+        if ct.handler is not None else None)
+
+    def cloned():
+        c = h.clone_traits()
+        return ("x" in c._instance_traits(), "x" in c.__dict__,
+                repr(c.__dict__.get("x"))[:40])
+    rec(cloned)
     return trace
 
 
